@@ -7,7 +7,7 @@
    Go maps (the cross-call de-duplication map, deleteDuplicationList) are modelled in first-occurrence order; theorems speak about
    membership / NoDup, the harness compares such outputs as sets. *)
 From Coq Require Import ZArith Lia List Bool String.
-From SID Require Import Base Str Ids ZoomCore AltKeyCore Quadkey.
+From SID Require Import Base Str Ids ZoomCore AltKeyCore ChangeZoom Quadkey.
 Import ListNotations.
 Open Scope Z_scope.
 
@@ -168,6 +168,44 @@ Section Conv.
     - now rewrite He.
     - destruct (id_pairs a); [|reflexivity]. destruct (fresh seen a0) as [s1 k]. now rewrite (IH s1 s Hin He).
   Qed.
+  (* conversely, a successful loop is `run` on the pair lists of its IDs — for ANY vertical function and ANY input strings *)
+  Lemma conv_loop_inv ids : forall seen gs, conv_loop seen ids = Ok gs ->
+    exists pss, Forall2 (fun s ps => id_pairs s = Ok ps) ids pss /\ gs = map mkgroup (run seen pss).
+  Proof.
+    induction ids as [|s r IH]; intros seen gs; cbn [conv_loop].
+    - intros [= <-]. exists []. split; [constructor|reflexivity].
+    - destruct (id_pairs s) as [ps|] eqn:Es; [|discriminate].
+      destruct (fresh seen ps) as [s1 k] eqn:Ef. destruct (conv_loop s1 r) as [gs'|] eqn:Er; [|discriminate].
+      intros [= <-]. destruct (IH s1 gs' Er) as (pss & F & ->). exists (ps :: pss). split; [constructor; assumption|].
+      cbn [run]. rewrite Ef. destruct k; reflexivity.
+  Qed.
+
+  (* GENERIC group theorem (no validity, any vertical function — index form, altitude keys, or the binary-subdivision form of C17):
+     whenever the call succeeds, every group reports the output zooms and the request's parameters unchanged and is non-empty, no pair
+     occurs twice across the groups, and the reported pairs are exactly the pairs of the input IDs *)
+  Theorem conv_groups_generic ids gs : conv ids = Ok gs ->
+    (forall g, In g gs -> g_hz g = oh /\ g_vz g = ov /\ g_par g = par /\ g_pairs g <> []) /\
+    NoDup (List.concat (map g_pairs gs)) /\
+    (forall p, In p (List.concat (map g_pairs gs)) <-> exists s ps, In s ids /\ id_pairs s = Ok ps /\ In p ps).
+  Proof.
+    unfold conv. destruct (negb (qcheck oh ov)); [discriminate|]. intros E.
+    destruct (conv_loop_inv ids [] gs E) as (pss & F & ->).
+    destruct (run_spec pss []) as (N & _ & B & C).
+    assert (Ep : map g_pairs (map mkgroup (run [] pss)) = run [] pss) by (rewrite map_map; cbn [mkgroup g_pairs]; apply map_id).
+    rewrite Ep. split; [|split; [exact N|]].
+    - intros g Hg. apply in_map_iff in Hg. destruct Hg as (k & <- & Hk). cbn. repeat split; try reflexivity. intros ->. contradiction.
+    - intros p. specialize (B p). cbn [In] in B.
+      assert (B' : In p (List.concat (run [] pss)) <-> exists ps, In ps pss /\ In p ps) by tauto. rewrite B'. clear -F. split.
+      + intros (ps & Hps & Hp). induction F as [|s ps0 ids pss Hs F IH]; [contradiction|]. destruct Hps as [->|Hps].
+        * exists s, ps. cbn [In]. auto.
+        * destruct (IH Hps) as (s' & ps' & A & B & C). exists s', ps'. cbn [In]. auto.
+      + intros (s & ps & Hs & Hps & Hp). induction F as [|s0 ps0 ids pss Hs0 F IH]; [contradiction|]. destruct Hs as [->|Hs].
+        * exists ps0. rewrite Hs0 in Hps. injection Hps as ->. cbn [In]. auto.
+        * destruct (IH Hs) as (ps' & A & B). exists ps'. cbn [In]. auto.
+  Qed.
+  (* one failing ID (malformed, zoom outside 0..35, vertical step refused) fails the whole call *)
+  Theorem conv_refuses ids s : In s ids -> id_pairs s = Err -> conv ids = Err.
+  Proof. intros Hin He. unfold conv. destruct (negb (qcheck oh ov)); [reflexivity|]. now apply (conv_loop_err ids [] s). Qed.
 End Conv.
 
 (* vertical axis, index form (maxHeight == minHeight): integrate.VerticalZoom, de-duplicated, "ov/f" parsed back *)
@@ -570,3 +608,114 @@ Proof.
   - intros (it & j & Hit & Z & ->). exists (print_eid j). split; [|apply S; eauto].
     unfold gf. rewrite eid_to_sid_print. destruct Z as (-> & _). reflexivity.
 Qed.
+
+(* NoDup of the spatial-ID result: the rewriting "h/x/y/v/f" -> "h/f/x/y" is injective on IDs whose zooms are both z *)
+Lemma print_sid_inj z f x y f' x' y' : print_sid z f x y = print_sid z f' x' y' -> f = f' /\ x = x' /\ y = y'.
+Proof.
+  unfold print_sid. intros H. apply (f_equal split) in H.
+  rewrite !split_join in H; try discriminate; try (cbn [forallb]; now rewrite !print_noslash).
+  injection H as H1 H2 H3. repeat split; now apply print_inj.
+Qed.
+Theorem q2s_spec_nodup items z : Forall qvalid items -> echeck z z = true ->
+  exists l, q2s items z = Ok l /\ NoDup l /\
+    forall s, In s l <-> exists it j, In it items /\ zrel (tile_of it) z z j /\ s = print_sid z (ef j) (ex j) (ey j).
+Proof.
+  intros F He. destruct (q2e_spec items z z F He) as (l & E & N & S). unfold q2s. rewrite E.
+  set (gf := fun s => match eid_to_sid_str s with Some t => t | None => EmptyString end).
+  assert (A : forall s, In s l -> exists j, s = print_eid j /\ eh j = z /\ ev j = z /\ gf s = print_sid z (ef j) (ex j) (ey j)).
+  { intros s Hs. apply S in Hs. destruct Hs as (it & j & _ & (Eh & Ev & _) & ->). exists j. repeat split; auto.
+    unfold gf. rewrite eid_to_sid_print, Eh. reflexivity. }
+  assert (M : map_opt eid_to_sid_str l = Some (map gf l)).
+  { assert (A' : forall s, In s l -> eid_to_sid_str s = Some (gf s)).
+    { intros s Hs. destruct (A s Hs) as (j & -> & _). unfold gf. now rewrite eid_to_sid_print. }
+    clear -A'. induction l as [|a r IH]; cbn [map map_opt]; [reflexivity|].
+    rewrite (A' a (or_introl eq_refl)), IH; [reflexivity|]. intros s Hs. apply A'. now right. }
+  unfold eids_to_sids. rewrite M. exists (map gf l). split; [reflexivity|]. split.
+  - (* injectivity of gf on l *)
+    clear M E S. induction N as [|a r Ha Nr IH]; cbn [map]; constructor.
+    + intros Hin. apply in_map_iff in Hin. destruct Hin as (b & Eb & Hb). apply Ha.
+      destruct (A a (or_introl eq_refl)) as (ja & -> & Eha & Eva & Ga). destruct (A b (or_intror Hb)) as (jb & -> & Ehb & Evb & Gb).
+      rewrite Ga, Gb in Eb. apply print_sid_inj in Eb. destruct Eb as (E1 & E2 & E3).
+      replace ja with jb; [exact Hb|]. destruct ja, jb; cbn in *; congruence.
+    + apply IH. intros s Hs. apply A. now right.
+  - intros s. rewrite in_map_iff. split.
+    + intros (e & <- & He'). destruct (A e He') as (j & -> & _ & _ & G). apply S in He'. destruct He' as (it & j' & Hit & Z & Ej).
+      exists it, j'. split; [exact Hit|]. split; [exact Z|]. unfold gf. rewrite Ej, eid_to_sid_print. destruct Z as (-> & _). reflexivity.
+    + intros (it & j & Hit & Z & ->). exists (print_eid j). split; [|apply S; eauto].
+      unfold gf. rewrite eid_to_sid_print. destruct Z as (-> & _). reflexivity.
+Qed.
+
+(* ---------- refusals of the inverse conversion ---------- *)
+Definition item_refused (it : qitem) : bool := negb (qcheck (qz it) (qvz it)) || (quadkey_limit <? qk it) || negb (qidx it).
+Lemma q2e_item_refused oh ov it : item_refused it = true -> q2e_item oh ov it = Err.
+Proof.
+  unfold item_refused, q2e_item. destruct (negb (qcheck (qz it) (qvz it))); [reflexivity|].
+  destruct (quadkey_limit <? qk it); [reflexivity|]. cbn [orb]. intros H. destruct (qidx it); [discriminate|reflexivity].
+Qed.
+Theorem q2e_bad_zoom items oh ov : echeck oh ov = false -> q2e items oh ov = Err.
+Proof. intros H. unfold q2e. now rewrite H. Qed.
+(* an element with a zoom outside 1..31 x 0..35, a key above the literal limit, or inverted heights — at any position — fails the call *)
+Theorem q2e_refuses items oh ov it : In it items -> item_refused it = true -> q2e items oh ov = Err.
+Proof.
+  intros Hin Hr. unfold q2e. destruct (negb (echeck oh ov)); [reflexivity|].
+  assert (E : q2e_loop oh ov items = Err).
+  { induction items as [|a r IH]; [contradiction|]. cbn [q2e_loop]. destruct Hin as [->|Hin].
+    - now rewrite (q2e_item_refused oh ov it Hr).
+    - destruct (q2e_item oh ov a); [|reflexivity]. now rewrite (IH Hin). }
+  now rewrite E.
+Qed.
+Theorem q2s_refuses items z it : In it items -> item_refused it = true -> q2s items z = Err.
+Proof. intros Hin Hr. unfold q2s. now rewrite (q2e_refuses items z z it Hin Hr). Qed.
+Theorem q2s_bad_zoom items z : echeck z z = false -> q2s items z = Err.
+Proof. intros H. unfold q2s. now rewrite (q2e_bad_zoom items z z H). Qed.
+
+(* ---------- the results stated against the C03 model ChangeZoom.change_eids ---------- *)
+Lemma one_zrel i oh ov j : wf i -> 0 <= oh -> 0 <= ov -> In j (one oh ov i) <-> zrel i oh ov j.
+Proof.
+  intros W Hoh Hov. rewrite (one_exact oh ov i j W Hoh Hov). unfold zrel, overlaps. split.
+  - intros (A & B & C & D & E). rewrite A, B in *. tauto.
+  - intros (A & B & C & D & E). rewrite A, B. tauto.
+Qed.
+Lemma change_eids_zrel es oh ov j : Forall valid es -> 0 <= oh -> 0 <= ov ->
+  In j (change_eids es oh ov) <-> exists i, In i es /\ zrel i oh ov j.
+Proof.
+  intros V Hoh Hov. rewrite Forall_forall in V. rewrite change_In. split; intros (i & Hi & H); exists i; (split; [exact Hi|]).
+  - apply one_zrel in H; auto. apply valid_wf; auto.
+  - apply one_zrel; auto. apply valid_wf; auto.
+Qed.
+(* the pairs are the (key, index) of ChangeExtendedSpatialIdsZoom's result *)
+Theorem e2q_spec_change {P} (par : P) es oh ov : qcheck oh ov = true -> Forall valid es ->
+  exists gs, e2q par true (map print_eid es) oh ov = Ok gs /\
+    forall q f, In (q, f) (List.concat (map g_pairs gs)) <->
+      exists j, In j (change_eids es oh ov) /\ q = interleave oh (ex j) (ey j) /\ f = ef j.
+Proof.
+  intros Hq Hv. destruct (e2q_spec par es oh ov Hq Hv) as (gs & E & _ & _ & S). exists gs. split; [exact E|].
+  apply qcheck_spec in Hq. intros q f. rewrite S. split.
+  - intros (i & j & Hi & Z & A & B). exists j. split; [apply change_eids_zrel; try lia; eauto|auto].
+  - intros (j & Hj & A & B). apply change_eids_zrel in Hj; try lia; auto. destruct Hj as (i & Hi & Z). exists i, j. auto.
+Qed.
+Lemma change_eids_valid_h es oh ov m : Forall valid es -> 0 <= oh -> 0 <= ov -> In m (change_eids es oh ov) ->
+  eh m = oh /\ ev m = ov /\ 0 <= ex m /\ 0 <= ey m.
+Proof.
+  intros V Hoh Hov Hm. apply change_eids_zrel in Hm; auto. destruct Hm as (i & Hi & Z). rewrite Forall_forall in V.
+  destruct (zrel_valid_h i oh ov m (V i Hi) Hoh Z) as (Bx & By). destruct Z as (A & B & _). lia.
+Qed.
+(* the round trip returns exactly the printed IDs of change_eids (change_eids es oh ov) bh bv *)
+Theorem roundtrip_spec_change {P} (par : P) es oh ov bh bv : qcheck oh ov = true -> echeck bh bv = true -> Forall valid es ->
+  exists gs back, e2q par true (map print_eid es) oh ov = Ok gs /\ q2e (items_of gs) bh bv = Ok back /\ NoDup back /\
+    forall s, In s back <-> exists j, In j (change_eids (change_eids es oh ov) bh bv) /\ s = print_eid j.
+Proof.
+  intros Hq He Hv. destruct (roundtrip_spec par es oh ov bh bv Hq He Hv) as (gs & back & E & Eb & N & S).
+  exists gs, back. repeat split; try assumption.
+  - intros Hs. apply S in Hs. destruct Hs as (i & m & j & Hi & Zm & Zj & ->). exists j. split; [|reflexivity].
+    apply change_In. exists m. apply qcheck_spec in Hq. apply echeck_spec in He. split.
+    + apply change_eids_zrel; try lia; eauto.
+    + rewrite Forall_forall in Hv. destruct (zrel_valid_h i oh ov m (Hv i Hi) ltac:(lia) Zm) as (Bx & By). pose proof Zm as (A & B & _).
+      apply one_zrel; [unfold wf; lia|lia|lia|exact Zj].
+  - intros (j & Hj & ->). apply S. apply change_In in Hj. destruct Hj as (m & Hm & Hj).
+    apply qcheck_spec in Hq. apply echeck_spec in He.
+    destruct (change_eids_valid_h es oh ov m Hv ltac:(lia) ltac:(lia) Hm) as (A & B & C & D).
+    apply change_eids_zrel in Hm; try lia; auto. destruct Hm as (i & Hi & Zm).
+    apply one_zrel in Hj; [|unfold wf; lia|lia|lia]. exists i, m, j. auto.
+Qed.
+
